@@ -101,6 +101,27 @@ fn check_api(st: &mut Stats, c: &Case) {
             continue;
         };
         st.decided += 1;
+        // independent expectation for Imsaak when the reported Fajr is extreme (no intervals): Imsaak is Fajr minus
+        // 90 s, so its rounded value follows from the UNROUNDED FAJR of the mode-None run, not only from the
+        // library's own unrounded Imsaak
+        if let (Ok(f0), Ok(im)) = (base[&Prayer::Fajr], res[&Prayer::Imsaak]) {
+            if f0.extreme && p.intervals[&Prayer::Imsaak] == 0.0 && p.intervals[&Prayer::Fajr] == 0.0 {
+                let t = (isecs(&f0) - 90).rem_euclid(86400) as u32;
+                let (h, m, sec) = (t / 3600, (t / 60) % 60, t % 60);
+                // stay one second clear of the mode's threshold (the subtraction is exact up to float dust)
+                let near = match mode {
+                    RoundSeconds::AggressiveRounding => sec <= 1 || sec == 59,
+                    _ => (29..=30).contains(&sec),
+                };
+                if !near {
+                    st.count("api.imsaak_from_unrounded_extreme_fajr_checks");
+                    let want = model_round(mode, Prayer::Fajr, h, m, sec);
+                    if want != hms(im.time) {
+                        st.violate("rounding_function", c, json!({"level": "api", "mode": format!("{mode:?}"), "prayer": "Imsaak", "unrounded_fajr(extreme)": f0.time.to_string(), "expected_unrounded_imsaak": format!("{h:02}:{m:02}:{sec:02}"), "got": im.time.to_string(), "want_hms": want}));
+                    }
+                }
+            }
+        }
         for pr in SEVEN {
             match (base[&pr], res[&pr]) {
                 (Ok(a), Ok(b)) => {
